@@ -15,11 +15,110 @@ pub const REQUIRED: &[&str] = &[
     "arm.dispatch[generic]", "arm.dispatch[sse2]", "arm.dispatch[avx2]", "arm.dispatch[auto]", "class.none_expected",
     "class.some_expected", "class.k>0", "class.k=all", "class.near_ties", "class.blocks>1", "class.L<M",
     "class.first_candidate_below_threshold", "class.threshold_below_jth_best", "dispatch_forced.generic", "dispatch_forced.sse2", "dispatch_forced.avx2",
-    "class.rows>65536", "class.history", "class.history.threshold_lowered", "class.history.threshold_raised",
+    "class.rows>65536", "class.threshold_equals_best_score_on_grid_aligned_matrix", "class.history", "class.history.threshold_lowered", "class.history.threshold_raised",
     "class.history.block_size_changed_after_blocks_scored", "class.history.hits_yielded",
 ];
 
+/// Match / mismatch matrices with the same spread in every column: every discretised cell is exact,
+/// the 8-bit score has no round-up margin. The threshold is the f32 score the library itself gives
+/// the best position: that position meets the threshold in the library's own arithmetic, so max()
+/// must find it (saturating arms only) and next() must yield every position with that score.
+fn tie_case(case: u64, rng: &mut Rng, rep: &mut Report) {
+    use lightmotif::abc::Dna;
+    use lightmotif::num::U32;
+    use lightmotif::seq::StripedSequence;
+    let (a, b) = *rng.pick(&[(0.5f32, -0.4f32), (0.7, -1.1), (0.3, -0.6), (1.1, -0.9), (0.9, -0.7), (2.0, -1.0)]);
+    let m = if rng.chance(0.6) { *rng.pick(&[3usize, 5, 15, 17]) } else { rng.range(2, 24) };
+    let l = rng.range(m + 30, 1500);
+    let cons: Vec<usize> = (0..m).map(|_| rng.below(4)).collect();
+    let wild = if rng.chance(0.5) { f32::NEG_INFINITY } else { b };
+    let rows: Vec<Vec<f32>> = cons.iter().map(|&c| (0..5).map(|j| if j == 4 { wild } else if j == c { a } else { b }).collect()).collect();
+    let mut seq = gen_seq(rng, 5, l, SeqKind::Uniform);
+    // several sites that differ from the consensus in the same number of places (equal scores)
+    let n_mis = rng.below(3.min(m));
+    for _ in 0..rng.range(1, 4) {
+        let p = rng.below(l - m + 1);
+        for j in 0..m {
+            seq[p + j] = cons[j] as u8;
+        }
+        for q in 0..n_mis {
+            let j = (q * 7 + p) % m;
+            seq[p + j] = ((cons[j] + 1 + q) % 4) as u8;
+        }
+    }
+    let pssm = scoring::<Dna>(&rows);
+    let mut striped: StripedSequence<Dna, U32> = stripe_generic(&encoded::<Dna>(&seq));
+    striped.configure(&pssm);
+    rep.eval();
+    rep.cover("class.threshold_equals_best_score_on_grid_aligned_matrix");
+    for &arm in [Arm::DispAvx2, Arm::DispAuto].iter() {
+        let res = guard(|| {
+            let f32_scores: Vec<f32> = (0..=l - m).map(|i| pssm.score_position(&striped, i)).collect();
+            let best = f32_scores.iter().cloned().fold(f32::NEG_INFINITY, f32::max);
+            let block = *rng.pick(&[1usize, 7, 32, 256, usize::MAX]);
+            force(arm);
+            let mut sc = Scanner::new(&pssm, &striped);
+            unforce();
+            sc.threshold(best);
+            sc.block_size(block);
+            let top = sc.max().map(|h| (h.position(), h.score()));
+            force(arm);
+            let mut sc2 = Scanner::new(&pssm, &striped);
+            unforce();
+            sc2.threshold(best);
+            sc2.block_size(block);
+            let hits: Vec<usize> = sc2.map(|h| h.position()).collect();
+            (f32_scores, best, block, top, hits)
+        });
+        unforce();
+        let wit = |extra: J| {
+            J::obj()
+                .set("arm", J::s(arm.name()))
+                .set("match_score", J::f(a as f64))
+                .set("mismatch_score", J::f(b as f64))
+                .set("M", J::u(m))
+                .set("L", J::u(l))
+                .set("consensus", J::s(fmt_seq_short::<Dna>(&cons.iter().map(|&c| c as u8).collect::<Vec<u8>>())))
+                .set("sequence", J::s(fmt_seq_short::<Dna>(&seq)))
+                .set("detail", extra)
+        };
+        match res {
+            Err(p) => {
+                rep.violate(&format!("c03.panic:{}", panic_site(&p)), case, format!("panic: {}", p), wit(J::Null));
+                return;
+            }
+            Ok((scores, best, block, top, hits)) => {
+                if !best.is_finite() {
+                    continue;
+                }
+                let want: Vec<usize> = (0..scores.len()).filter(|&i| scores[i] >= best).collect();
+                match top {
+                    None => {
+                        rep.violate("c03.none_but_hit_exists", case, format!("threshold = {} = the score_position() of position {}, block size {}: max() returned None", best, want[0], block), wit(J::Null));
+                        return;
+                    }
+                    Some((p, s)) => {
+                        if p >= scores.len() || scores[p] != best || s != best {
+                            rep.violate("c03.not_maximal", case, format!("threshold = best score {}: max() returned position {} with score {}", best, p, s), wit(J::Null));
+                            return;
+                        }
+                    }
+                }
+                let got: HashSet<usize> = hits.iter().cloned().collect();
+                if let Some(&missing) = want.iter().find(|i| !got.contains(i)) {
+                    rep.violate("c03.hit_at_threshold_not_yielded", case, format!("threshold = {}: position {} has exactly that score_position() but next() never yielded it (block size {})", best, missing, block), wit(J::Null));
+                    return;
+                }
+            }
+        }
+    }
+}
+
 fn max_case(case: u64, rng: &mut Rng, rep: &mut Report) {
+    if case % 8 == 6 {
+        tie_case(case, rng, rep);
+        return;
+    }
     max_case_inner(case, rng, rep);
 }
 
